@@ -537,6 +537,7 @@ func (b *batchRun) build() *flyt.BatchNodeBuilder {
 func (b *batchRun) controller() {
 	steps := b.sc.Release
 	si := 0
+	offScript := false
 	waitParked := func(pred func() *parkedCall, d time.Duration) *parkedCall {
 		deadline := time.After(d)
 		for {
@@ -582,7 +583,7 @@ func (b *batchRun) controller() {
 		default:
 		}
 		var pc *parkedCall
-		if b.cfg.Sched == "script" && si < len(steps) {
+		if b.cfg.Sched == "script" && si < len(steps) && !offScript {
 			st := steps[si]
 			si++
 			// wait until the expected in-flight set has formed, then release the prescribed call
@@ -593,6 +594,9 @@ func (b *batchRun) controller() {
 				}
 				return nil
 			}, 300*time.Millisecond)
+			if pc == nil {
+				offScript = true // the library left the scripted schedule: release whatever parks from now on
+			}
 			if pc != nil && st.Settle {
 				// stop flag / skipped items are not observable: give the workers time to get there
 				time.Sleep(b.settle)
